@@ -504,6 +504,7 @@ func checkWriteHeaderCode(code int) {
 func (h *ResponseHeader) ResetSkipNormalize() {
 	h.protocol = ""
 	h.connectionClose = false
+	h.headerLength = 0
 
 	h.statusCode = 0
 	h.contentLength = 0
